@@ -303,6 +303,12 @@ def run(ck):
     prover_origin_rules(ck, prog, psg, ptags)
     seed_field_coverage(ck, prog)
     digest_coverage(ck, prog)
+    from .stale import unsorted_dedup_sites
+    for f_, b_, ok_ in unsorted_dedup_sites(prog, lambda f: f.crate in ("winter_verifier",) or f.nname.startswith("winter_prover::channel::")):
+        ck.saw(f_)
+        ck.ob("E3.used", f"{'V' if f_.crate == 'winter_verifier' else 'P'}:positions-sorted-before-dedup", ok_,
+              f"{f_.nname.split('::')[-1]}: the drawn query positions are sorted before duplicates are removed (both sides derive the same set)",
+              loc=f_.loc(b_, "T"))
     from . import c15 as _c15
     _c15.remainder_sent(ck, prog, rule="SENT")   # FRI: the remainder carried in the proof is the one whose hash was absorbed
 
